@@ -348,6 +348,11 @@ func (l *link) Send(req resources.TwoPCRequest, reply *resources.TwoPCResponse) 
 	r := c.begin(l.src, l.dst, req, fateName[fate], false)
 	if fate == fateDropReq {
 		vstat.Class("replicated.msg.dropped")
+		if req.RequestType != resources.PreCommit || d%2 == 1 {
+			// a loss is noticed late (a time-out), typically after the other replicas have answered
+			vstat.Class("replicated.msg.dropped.reported-late")
+			c.waitDeliveries(d + 2)
+		}
 		c.mu.Lock()
 		r.err, r.failedAt = errDropped, time.Now()
 		c.finishLocked(r)
